@@ -25,7 +25,7 @@ HOLO = ['["example"∧REQ→§SELF]', '["x"∧REQ]', '[1∧TYPE[NUMBER]]', '["a"
         '["a\\tb"∧REQ]', '["q\\"r"∧OPT]', '["back\\\\slash"∧REQ]', '["two\\nlines"∧REQ→§SELF]', '["1.0.0"∧CONST[1.0.0]]', '[$V∧REQ]',
         '["a"∧ENUM[x⊕y,z]]']
 ZONE_LINES = ["plain", "\tTabbed", "é nfd", "back\\slash \\n", 'q"uote', "A->B | C & D", "K::v", "===END===",
-              "---", "``", "  indented", "", " ", "→⊕", "trailing  ", "x\ry", "``` not", "// c"]
+              "---", "``", "  indented", "", " ", "→⊕", "trailing  ", "x\ry", "``` not", "// c", "```caf\u00e9", "```cafe\u0301 x", "````\u00c5", "  ```\u00f1"]
 
 
 class Gen:
